@@ -44,10 +44,13 @@ namespace impl {
 
 			if(!tags) tags=&tmp_triggers;
 			
-			if(l1_->fetch(key,a,tags,timeout_out,gen)) {
+			std::set<std::string> l1_triggers;
+			if(l1_->fetch(key,a,&l1_triggers,timeout_out,gen)) {
 				int res = tcp()->fetch(key,*a,tags,*timeout_out,*gen,true);
-				if(res==tcp_cache::up_to_date)
+				if(res==tcp_cache::up_to_date) {
+					tags->insert(l1_triggers.begin(),l1_triggers.end());
 					return true;
+				}
 				if(res==tcp_cache::not_found) {
 					l1_->remove(key);
 					return false;
